@@ -17,7 +17,7 @@ from . import common
 from pvc import core
 from pvc.core import Sym
 
-MODULES = ['dassh.read_input', 'dassh.utils']
+MODULES = ['dassh.read_input', 'dassh.utils', 'dassh.assembly'] + common.RR_MODULES
 PROPERTY = 'C17'
 FUNCTIONS = ['dassh.read_input:DASSH_Input.convert_assn_deltaT_to_outletT', 'dassh.utils:get_length_conversion', 'dassh.utils:get_temperature_conversion',
              'dassh.utils:get_mass_conversion', 'dassh.utils:get_time_conversion', 'dassh.utils:parse_mfr_units',
@@ -264,6 +264,11 @@ def configs(tier):
         out.append((convert_each_once, dict(temperature=t, length=l, mfr=m, pin='FuelModel', parsed=True)))
     for t, l, m in (('kelvin', 'm', 'kg/s'), ('kelvin', 'cm', 'kg/s'), ('celsius', 'm', 'lb/min'), ('fahrenheit', 'in', 'kg/hr')):
         out.append((convert_each_once, dict(temperature=t, length=l, mfr=m, pin='PinModel', no_interval=True)))
+    # "the same mesh and temperatures": converted lengths carry round-off of either sign; the consumers of converted
+    # axial positions read them on the raster of the axial planes (C14's contracts on the region of a step and on
+    # the spacer grids, shared) - without that a bound of 27.4 cm and one of 0.274 m select different steps
+    from . import c14
+    out += [(c14.region_of_step, dict(n_regions=3)), (c14.grid, dict(where='near_plane'))]
     return out
 
 
